@@ -299,6 +299,11 @@ func (c *c19Oracle) Check(w *World, o *Obs) []Violation {
 		if !cfg.hasModule("confirm") && (row.ConfirmSelector != "" || row.ConfirmVerifier != "") {
 			out = append(out, viol("C19", "hostile_field_took_effect", "register", o, "new row has confirmation tokens although confirm is not loaded"))
 		}
+		if faulted && cfg.hasModule("confirm") && loggedIn && uid == pid {
+			// a failing back end may make the registration fail, never log
+			// the unconfirmed user in
+			out = append(out, viol("C19", "logged_in_before_confirmation", "register", o, fmt.Sprintf("%q was logged in although e-mail confirmation is in force (a back-end call of this request failed: %s)", pid, o.FaultFired), "faulted", "true"))
+		}
 		if !faulted {
 			if cfg.hasModule("confirm") {
 				if loggedIn && uid == pid {
